@@ -170,6 +170,10 @@ func inferTyped(t byte, doc []byte) typedDoc {
 	if sh.hasConflict() {
 		return typedDoc{}
 	}
+	return typedFromShape(sh)
+}
+
+func typedFromShape(sh *Shape) typedDoc {
 	g := &idlGen{extra: map[*Shape][]uint16{}}
 	addExtras(sh, g)
 	tn := g.typeName(sh)
@@ -860,9 +864,12 @@ func randRootType(r *rand.Rand) byte {
 	return tSTRUCT
 }
 
-func (c *c01) genRandom(seed int64, n int, big bool) {
-	r := rand.New(rand.NewSource(seed))
+func (c *c01) genRandom(seed int64, base, n int, big bool) {
 	for i := 0; i < n; i++ {
+		if base+i < startAt {
+			continue
+		}
+		r := rand.New(rand.NewSource(seed*1000003 + int64(i)))
 		cfg := &genCfg{maxDepth: 2 + r.Intn(3), maxElems: 1 + r.Intn(5), maxStr: 40}
 		if big && r.Intn(10) == 0 {
 			cfg.maxElems = 20 + r.Intn(30)
@@ -872,6 +879,7 @@ func (c *c01) genRandom(seed int64, n int, big bool) {
 		t := randRootType(r)
 		v := randVal(r, t, 0, cfg)
 		doc := v.Enc(nil)
+		c.out.Begin(base+i, map[string]interface{}{"t": int(t), "b": B(doc)})
 		np := 4 + r.Intn(6)
 		for j := 0; j < np; j++ {
 			c.run(ReadCase{T: int(t), B: doc, Path: randPath(r, v)})
@@ -972,8 +980,14 @@ func c01Main(args map[string]string) {
 	out := newOut(args["out"])
 	defer out.Close()
 	c := &c01{out: out, full: args["full"] != "0"}
+	idx := 0
 	if cf := args["cases"]; cf != "" {
 		readLines(cf, func(line []byte) {
+			idx++
+			if idx-1 < startAt {
+				return
+			}
+			c.out.Begin(idx-1, json.RawMessage(append([]byte(nil), line...)))
 			if strings.Contains(string(line[:min(len(line), 40)]), "\"many\"") {
 				var mc struct {
 					ManyCase
@@ -993,7 +1007,7 @@ func c01Main(args map[string]string) {
 		})
 	}
 	if n := atoi(args["n"]); n > 0 {
-		c.genRandom(int64(atoi(args["seed"])), n, args["big"] == "1")
+		c.genRandom(int64(atoi(args["seed"])), idx, n, args["big"] == "1")
 	}
 	fmt.Printf("c01 docs=%d cases=%d events=%d\n", c.docs, c.cases, out.n)
 }
